@@ -31,7 +31,7 @@ pub fn spec() -> CheckSpec {
     real_components: "deno_graph builder/walk/jsr store/rt, deno_ast+swc, futures, deno_unsync, deno_semver, serde_json",
     stub_components: "Loader, Executor, Locker, NpmResolver, Resolver, FileSystem, Reporter (simulated seams); hash keys via getrandom interposition",
     quick_cases: 2500,
-    thorough_cases: 60000,
+    thorough_cases: 40000,
     run_case,
     // systematic cases: tiny worlds whose whole scheduler choice tree (which
     // task is polled, which outstanding load completes) is enumerated
@@ -389,6 +389,8 @@ fn add_deferred_shape(tape: &mut Tape, w: &mut crate::world::World) -> bool {
   w.add_desc(user);
   rd.items.splice(0..0, front);
   w.add_desc(rd);
+  // an alias of the edited root serves what the root serves
+  crate::world::refresh_aliases(w);
   true
 }
 
